@@ -91,7 +91,21 @@ func VfsTempDir() string {
 	if err != nil {
 		panic(err)
 	}
+	vfsTempDirs = append(vfsTempDirs, d)
 	return d
+}
+
+var vfsTempDirs []string
+
+// VfsCleanup removes the temporary directories handed out by VfsTempDir (native runs).
+func VfsCleanup() {
+	if Symbolic() {
+		return
+	}
+	for _, d := range vfsTempDirs {
+		_ = os.RemoveAll(d)
+	}
+	vfsTempDirs = nil
 }
 
 // VfsFreeze marks the instant of a simulated crash (engine only): nothing may touch the disk
